@@ -394,6 +394,20 @@ Definition head_validate (cfg : config) (now : Z) (s : chain) (old_slot old_coun
   | (true, false) => 0
   end.
 
+(* ---- histories: any sequence of deliveries (genuine or forged alike) ---- *)
+Inductive delivery :=
+| DBoot (b : bootstrap)
+| DUpd (now : Z) (u : update) (next : option committee).
+
+Definition deliver (cfg : config) (trusted : hash -> bool) (s : chain) (d : delivery) : chain * N :=
+  match d with
+  | DBoot b => deliver_bootstrap trusted s b
+  | DUpd now u next => deliver_update cfg now s u next
+  end.
+
+Definition run_deliveries (cfg : config) (trusted : hash -> bool) (s : chain) (ds : list delivery) : chain :=
+  fold_left (fun s d => fst (deliver cfg trusted s d)) ds s.
+
 End Chain.
 
 Arguments mkStore {T}. Arguments st_rng {T}. Arguments st_map {T}.
